@@ -4,13 +4,13 @@ EXTENDS MultiConsumer
 Nm == <<"a", "b", "c">>
 Mk(s, shape) == [j \in DOMAIN shape |->
     [name |-> Nm[s], t |-> j, g |-> "x", pts |-> [i \in 1..shape[j] |-> [t |-> j, v |-> 100 * s + 10 * j + i]]]]
-Shapes2 == { <<1>>, <<2>>, <<0, 1>>, <<1, 1>>, <<>> }     \* points per batch
+Shapes2 == { <<1>>, <<2>>, <<0, 1>>, <<>> }     \* points per batch
 Shapes3 == { <<1>>, <<0>>, <<>> }
 MCIn2 == { <<Mk(1, x), Mk(2, y)>> : x \in Shapes2, y \in Shapes2 }
 MCIn3 == { <<Mk(1, x), Mk(2, y), Mk(3, z)>> : x \in Shapes3, y \in Shapes3, z \in Shapes3 }
 MCInAll == MCIn2 \cup MCIn3
-ShapesT == { <<1>>, <<2>>, <<0, 1>>, <<1, 1>>, <<2, 1>>, <<1, 0, 1>>, <<>> }
-ShapesT3 == { <<1>>, <<2>>, <<0, 1>>, <<>> }
+ShapesT == { <<1>>, <<2>>, <<0, 1>>, <<1, 1>>, <<2, 1>>, <<1, 0, 1>>, <<>> }   \* the driver stops at <<2, 1>>
+ShapesT3 == { <<1>>, <<0>>, <<2>>, <<0, 1>>, <<>> }
 MCInThorough == { <<Mk(1, x), Mk(2, y)>> : x \in ShapesT, y \in ShapesT }
                 \cup { <<Mk(1, x), Mk(2, y), Mk(3, z)>> : x \in ShapesT3, y \in ShapesT3, z \in ShapesT3 }
 =============================================================================
